@@ -116,7 +116,7 @@ pub fn run(ctx: &Ctx) -> Outcome {
     let max_n: u64 = ctx.q(140, 400);
     let mut idx = 0u64;
     let mut fail: Option<(String, SeqFailure, Json)> = None;
-    'outer: for round in 0..ctx.q(6u64, 40) {
+    'outer: for round in 0..ctx.q(6u64, 400) {
         for &mode in &modes {
             for ins in 0..5u8 {
                 for del in 0..5u8 {
@@ -162,7 +162,7 @@ pub fn run(ctx: &Ctx) -> Outcome {
     }
     // random tree-heavy sequences
     let mut i = 0u64;
-    let target = ctx.q(500u64, 6000);
+    let target = ctx.q(500u64, 400_000);
     while fail.is_none() && i < target && ctx.time_left() {
         let mut rng = Rng::derive(ctx.seed ^ 0x6006, ctx.shard, i);
         i += 1;
